@@ -614,6 +614,12 @@ func (c *Ctx) checkWorkDominated(fn *ssa.Function, input *ssa.Parameter, okBlk *
 
 // emptyOnlyBlock: b is reached only when len(input) == 0 (the zero side of a test of the input's length against 0).
 func emptyOnlyBlock(fn *ssa.Function, input *ssa.Parameter, b *ssa.BasicBlock) bool {
+	return shortOnlyBlock(fn, input, b, 0)
+}
+
+// shortOnlyBlock: block b runs only for inputs of at most maxLen bytes (maxLen 0: the empty input; 1: an input no
+// set limit can call too long, the smallest limit being 1).
+func shortOnlyBlock(fn *ssa.Function, input *ssa.Parameter, b *ssa.BasicBlock, maxLen int64) bool {
 	for _, d := range fn.Blocks {
 		iff, ok := d.Instrs[len(d.Instrs)-1].(*ssa.If)
 		if !ok {
@@ -631,11 +637,11 @@ func emptyOnlyBlock(fn *ssa.Function, input *ssa.Parameter, b *ssa.BasicBlock) b
 		if bi, ok := call.Call.Value.(*ssa.Builtin); !ok || bi.Name() != "len" || rootParam(call.Call.Args[0]) != input {
 			continue
 		}
-		side := -1 // the successor taken when the length is 0
+		side := -1 // the successor taken when the length is 0 (at most maxLen)
 		switch {
-		case bo.Op == token.EQL && k == 0, bo.Op == token.LSS && k == 1, bo.Op == token.LEQ && k == 0:
+		case bo.Op == token.EQL && k >= 0 && k <= maxLen, bo.Op == token.LSS && k >= 1 && k <= maxLen+1, bo.Op == token.LEQ && k >= 0 && k <= maxLen:
 			side = 0
-		case bo.Op == token.NEQ && k == 0, bo.Op == token.GTR && k == 0, bo.Op == token.GEQ && k == 1:
+		case bo.Op == token.NEQ && k == 0 && maxLen == 0, bo.Op == token.GTR && k >= 0 && k <= maxLen, bo.Op == token.GEQ && k >= 1 && k <= maxLen+1:
 			side = 1
 		}
 		if side < 0 {
@@ -767,7 +773,7 @@ func (c *Ctx) checkSuccessDominated(fn *ssa.Function, input *ssa.Parameter, okBl
 		if errBlk != nil && (errBlk == b || errBlk.Dominates(b)) {
 			continue
 		}
-		if emptyOnly(b) || emptyFlag(b) {
+		if emptyOnly(b) || emptyFlag(b) || shortOnlyBlock(fn, input, b, 1) {
 			continue
 		}
 		ev := ret.Results[len(ret.Results)-1]
